@@ -180,39 +180,53 @@ Proof. exact revoked_provenance. Qed.
 Print Assumptions C19_revoked_provenance.
 
 (* CONCURRENT confirmations.  The provider is wrapped by SingleFlightProvider: Revoke is coalesced on
-   "Revoke/" ++ access token.  Every critical section of singleflight.Group.Do is one event of a
-   labelled transition system (a request reaches the provider layer: opens a flight and calls the IdP,
-   or joins the flight of its key and inherits its result; a flight completes), so "every interleaving"
-   is "every event list".  With nothing in flight a request is served as in the sequential model. *)
+   "Revoke/" ++ Sprintf("%q:%q", access token, refresh token).  Every critical section of
+   singleflight.Group.Do is one event of a labelled transition system (a request reaches the provider
+   layer: opens a flight and calls the IdP, or joins the flight of its key and inherits its result; a
+   flight completes), so "every interleaving" is "every event list".  With nothing in flight a request is
+   served as in the sequential model. *)
 Theorem C19_conc_alone : forall (mac : str -> str -> str) secret p st now q,
   cs_flights st = [] -> snd (cstep mac secret p st (CReq now q)) = Some (auth_sign_out mac secret p now q).
 Proof. exact cstep_alone. Qed.
 Print Assumptions C19_conc_alone.
 
-(* "whoever is told 'signed out' has THEIR token revoked at the IdP", for every interleaving:
-   FALSE of the faithful model for Okta (the flight key is the access token, the revoked token the
-   refresh token) — finding C19-K1 ... *)
-Theorem C19_conc_refuted_okta :
-  exists secret evs s,
-    In s (cs_cleared (fst (crun toy_mac secret POkta evs))) /\
-    ~ In (revoke_token POkta s) (cs_revoked (fst (crun toy_mac secret POkta evs))).
-Proof. exact conc_refuted_okta. Qed.
-Print Assumptions C19_conc_refuted_okta.
+(* the key names the pair: two sessions are merged only if BOTH tokens agree (strconv.Quote modelled as far
+   as needed: quote, colon, quote parses back uniquely) *)
+Theorem C19_flight_key_inj : forall s1 s2,
+  flight_key s1 = flight_key s2 <-> as_access s1 = as_access s2 /\ as_refresh s1 = as_refresh s2.
+Proof. exact flight_key_inj. Qed.
+Print Assumptions C19_flight_key_inj.
 
-(* ... true for every provider whenever equal single-flight keys name equal IdP tokens among the
-   sessions that sign out (sessions of one grant; distinct users with distinct access tokens —
-   in particular users who merely share an EMPTY or equal refresh token) ... *)
-Theorem C19_conc_cleared_implies_revoked_partial : forall (mac : str -> str -> str) secret p U evs,
+(* FULL statement, every provider, every interleaving of arrivals and flight completions, any number of
+   users, any IdP answers: whoever is told "signed out" (cookie cleared) has THEIR token revoked at the IdP.
+   (Historical: false for Okta before 7e98525 — the key was the access token alone, finding C19-K1; the
+   guarded form below is what was provable then and is kept as the general lemma.) *)
+Theorem C19_conc_cleared_implies_revoked : forall (mac : str -> str -> str) secret p evs s,
+  In s (cs_cleared (fst (crun mac secret p evs))) -> In (revoke_token p s) (cs_revoked (fst (crun mac secret p evs))).
+Proof. exact conc_cleared_implies_revoked_full. Qed.
+Print Assumptions C19_conc_cleared_implies_revoked.
+
+Theorem C19_conc_cleared_implies_revoked_guarded : forall (mac : str -> str -> str) secret p U evs,
   consistent p U -> sessions_in U evs ->
   forall s, In s (cs_cleared (fst (crun mac secret p evs))) -> In (revoke_token p s) (cs_revoked (fst (crun mac secret p evs))).
 Proof. exact conc_cleared_implies_revoked. Qed.
-Print Assumptions C19_conc_cleared_implies_revoked_partial.
+Print Assumptions C19_conc_cleared_implies_revoked_guarded.
 
-(* ... and unconditionally for Google, whose revoked token is the key. *)
-Theorem C19_conc_cleared_implies_revoked_google : forall (mac : str -> str -> str) secret evs s,
-  In s (cs_cleared (fst (crun mac secret PGoogle evs))) -> In (revoke_token PGoogle s) (cs_revoked (fst (crun mac secret PGoogle evs))).
-Proof. exact conc_cleared_implies_revoked_google. Qed.
-Print Assumptions C19_conc_cleared_implies_revoked_google.
+(* the former witness of C19-K1 (Okta, one access token, refresh tokens r1 / r2, overlapping): now both
+   revoke calls are made and both tokens are revoked *)
+Theorem C19_conc_okta_regression :
+  let host := [97;112;112;46;116;101;115;116] in
+  let secret := [115;51;99;114;51;116] in
+  let l := p_loc (proxy_sign_out toy_mac [] secret true true host 1700000000%Z) in
+  let s1 := {| as_email := [97]; as_access := [97;116]; as_refresh := [114;49] |} in
+  let s2 := {| as_email := [98]; as_access := [97;116]; as_refresh := [114;50] |} in
+  let evs := [CReq 1700000100%Z (follow l MPost true (ACSealed s1) (IdpSt 200%Z BNotJSON));
+              CReq 1700000100%Z (follow l MPost true (ACSealed s2) (IdpSt 200%Z BNotJSON))] in
+  cs_cleared (fst (crun toy_mac secret POkta evs)) = [s2; s1] /\
+  cs_revoked (fst (crun toy_mac secret POkta evs)) = [[114;50]; [114;49]] /\
+  map r_revoked (snd (crun toy_mac secret POkta evs)) = [[[114;49]]; [[114;50]]].
+Proof. exact conc_okta_regression. Qed.
+Print Assumptions C19_conc_okta_regression.
 
 (* Both services: after any authenticator history in which the user was signed out, every saved copy
    of a proxy session of the same grant is refused at its next due check (back channel reporting the
